@@ -211,6 +211,24 @@ func c09Tasks(tier string) []Task {
 			}
 		}
 	}
+	// one Batch shared by 2-3 goroutines (the Batch has its own lock: it is meant to be used like that)
+	bcalls := []Call{{K: "bput", Key: "a"}, {K: "bput", Key: "b"}, {K: "bdel", Key: "a"}, {K: "bget", Key: "a"}, {K: "bcommit"}}
+	for _, k := range []int{2, 3} {
+		for _, m := range multisets(len(bcalls), k) {
+			var ts [][]Call
+			for _, i := range m {
+				ts = append(ts, []Call{bcalls[i]})
+			}
+			for _, cfg := range []Cfg{cfgs[0], cfgs[5]} {
+				sc := Scenario{Cfg: cfg, Init: init, Threads: ts, SharedBatch: true}
+				pb := -1
+				if k == 3 {
+					pb = 3
+				}
+				tasks = append(tasks, Task{Level: fmt.Sprintf("shared-batch-%d", k), Name: sc.String(), Fn: func(res *TaskResult) { c09RunScenario(sc, pb, res) }})
+			}
+		}
+	}
 	rounds := 40
 	if tier == "thorough" {
 		rounds = 400
